@@ -15,5 +15,5 @@ CONSTANTS
   AllowFlush = FALSE
   AtomicPoll = TRUE
 INVARIANTS PollOK CapacityOK TokensOK InterestsOK NoStall QuietNotReady ReleasableReady Refused503 KillWins KillReady Witnesses
-PROPERTY AbsRefines
+PROPERTY AbsRefines IntrRefines
 CHECK_DEADLOCK FALSE
